@@ -290,7 +290,8 @@ def _store_array(
     else:
         # treat a region as an offset within the target store
         shape = target.shape
-        chunks = target.chunks
+        # for a sharded target the unit that a task must write whole is the shard
+        chunks = getattr(target, "shards", None) or target.chunks
         for i, (sl, cs) in enumerate(zip(region, chunks)):
             if (sl.start is not None and sl.start % cs != 0) or (
                 sl.stop is not None and sl.stop % cs != 0 and sl.stop != shape[i]
